@@ -183,7 +183,16 @@ func runC16(w *mon.W) {
 				if r.Intn(3) == 0 {
 					// a list of contents naming the sections of the file: the title of the supplier table occurs in the prose,
 					// indented or padded, followed by further prose lines that begin with a capital letter
-					sb.WriteString([]string{"    ", "\t", " "}[r.Intn(3)] + "REBASE codes for commercial sources of enzymes" + []string{"", "   ", " (below)"}[r.Intn(3)] + "\n")
+					if r.Intn(3) == 0 {
+						// ... or at the left margin, as the beginning of a longer line of an index
+						sb.WriteString("REBASE codes for commercial sources of enzymes" + []string{" (below)", " ..... end of header", ", then the enzymes", ": see the table"}[r.Intn(4)] + "\n")
+						w.Add("prose_lines_beginning_with_the_table_title", 1)
+						if r.Intn(2) == 0 {
+							sb.WriteString([]string{"Contents", "Page 2", "Index", "Q", "-"}[r.Intn(5)] + "\n")
+						}
+					} else {
+						sb.WriteString([]string{"    ", "\t", " "}[r.Intn(3)] + "REBASE codes for commercial sources of enzymes" + []string{"", "   ", " (below)"}[r.Intn(3)] + "\n")
+					}
 					sb.WriteString(strings.Repeat(" ", r.Intn(17)) + string("ABCDEFGHIJKLMNOPQRSTUVWXYZ"[r.Intn(26)]) + "        " + rbText(r, 40) + " contents line\n")
 				}
 			default:
@@ -269,6 +278,16 @@ func runC16(w *mon.W) {
 			names[rec.Name] = true
 			for j := r.Intn(8); j > 0 && r.Intn(4) != 0; j-- {
 				rec.Iso = append(rec.Iso, gen.RandWordAlnum(r, 3+r.Intn(8)))
+			}
+			if r.Intn(12) == 0 {
+				// group listings name every member of an isoschizomer group on each <2> line, the enzyme itself included;
+				// and fields of one record repeat each other (the organism named after the enzyme, a duplicate in the list)
+				at := r.Intn(len(rec.Iso) + 1)
+				rec.Iso = append(rec.Iso[:at:at], append([]string{rec.Name}, rec.Iso[at:]...)...)
+				if r.Intn(3) == 0 {
+					rec.Iso = append(rec.Iso, rec.Iso[r.Intn(len(rec.Iso))])
+				}
+				w.Add("records_listing_their_own_name_as_isoschizomer", 1)
 			}
 			if r.Intn(60) == 0 {
 				// a much-copied prototype: several hundred isoschizomers on one <2> line (4 KiB and more)
